@@ -116,6 +116,25 @@ impl From<&V7> for NetflowCommon {
     }
 }
 
+/// The V9 PROTOCOL field is decoded as `FieldValue::ProtocolType`: recover its number.
+/// `ProtocolTypes::Unknown` does not remember the number it was decoded from.
+fn v9_protocol_number(value: &FieldValue) -> Option<u8> {
+    match value {
+        FieldValue::ProtocolType(ProtocolTypes::Unknown) => None,
+        FieldValue::ProtocolType(protocol) => Some(u8::from(*protocol)),
+        other => other.try_into().ok(),
+    }
+}
+
+/// The V9 FIRST_SWITCHED / LAST_SWITCHED fields (sysUpTime in milliseconds) are decoded as
+/// `FieldValue::Duration`: recover the millisecond count.
+fn v9_uptime_millis(value: &FieldValue) -> Option<u32> {
+    match value {
+        FieldValue::Duration(duration) => u32::try_from(duration.as_millis()).ok(),
+        other => other.try_into().ok(),
+    }
+}
+
 impl From<&V9> for NetflowCommon {
     fn from(value: &V9) -> Self {
         // Convert V9 to NetflowCommon
@@ -143,18 +162,17 @@ impl From<&V9> for NetflowCommon {
                             .and_then(|v| v.try_into().ok()),
                         protocol_number: value_map
                             .get(&V9Field::Protocol)
-                            .and_then(|v| v.try_into().ok()),
-                        protocol_type: value_map.get(&V9Field::Protocol).and_then(|v| {
-                            v.try_into()
-                                .ok()
-                                .map(|proto: u8| ProtocolTypes::from(proto))
-                        }),
+                            .and_then(v9_protocol_number),
+                        protocol_type: value_map
+                            .get(&V9Field::Protocol)
+                            .and_then(v9_protocol_number)
+                            .map(ProtocolTypes::from),
                         first_seen: value_map
                             .get(&V9Field::FirstSwitched)
-                            .and_then(|v| v.try_into().ok()),
+                            .and_then(v9_uptime_millis),
                         last_seen: value_map
                             .get(&V9Field::LastSwitched)
-                            .and_then(|v| v.try_into().ok()),
+                            .and_then(v9_uptime_millis),
                         src_mac: value_map
                             .get(&V9Field::InSrcMac)
                             .and_then(|v| v.try_into().ok()),
